@@ -3,6 +3,7 @@
 package funcs
 
 import (
+	dtpb "github.com/google/fhir/go/proto/google/fhir/proto/r4/core/datatypes_go_proto"
 	"github.com/verily-src/fhirpath-go/fhirpath/internal/expr"
 	"github.com/verily-src/fhirpath-go/fhirpath/system"
 	"github.com/verily-src/fhirpath-go/internal/verifrt"
@@ -46,5 +47,32 @@ func VerifHarness_C03_SetFunctionsDoNotMutate() {
 	verifrt.ProtectSlice("env v", other)
 	fn.Func(ctx, input, args...)
 	verifrt.CheckFrames()
+	verifrt.Reach("end")
+}
+
+// C03: extension(url) reads the extension list of its input items: the items, their extension lists (every slot, in
+// order) and the extensions themselves are what they were, whichever of them match.
+func VerifHarness_C03_ExtensionFunctionDoesNotMutate() {
+	t := verifFullTable()
+	u := verifrt.NondetString("url", 1)
+	n := 1 + verifrt.Choose("extensions", 3)
+	el := &dtpb.HumanName{}
+	for i := 0; i < n; i++ {
+		ext := &dtpb.Extension{}
+		if verifrt.NondetBool("hasUrl") {
+			ext.Url = &dtpb.Uri{Value: verifrt.NondetString("extUrl", 1)}
+		}
+		el.Extension = append(el.Extension, ext)
+	}
+	before := make([]*dtpb.Extension, len(el.Extension))
+	copy(before, el.Extension)
+	verifrt.Protect("element", el)
+	_, _ = t["extension"].Func(verifCtx(), system.Collection{el}, &expr.LiteralExpression{Literal: system.String(u)})
+	verifrt.CheckFrames()
+	same := len(el.Extension) == len(before)
+	for i := 0; same && i < len(before); i++ {
+		same = el.Extension[i] == before[i]
+	}
+	verifrt.Assert(same, "the-extension-list-of-the-input-is-what-it-was")
 	verifrt.Reach("end")
 }
